@@ -10,20 +10,29 @@ RULE = ("non-trivial = a 3-D rotation / axis-relative spherical-coordinate case 
         "guard requests (wrong dimension / axis size) count when they exit; distinct by case text")
 LEVEL_TEXT = ("Theorems (Coq, over the reals, for every angle and every non-zero axis of any length): the 2-D and 3-D matrices returned by the "
               "model of Rotation_Matrix are orthogonal (R^T R = R R^T = 1, all entries), have determinant one, the 3-D rotation fixes the axis and its unit vector, "
-              "maps every v perpendicular to the axis to cos(alpha) v + sin(alpha) (n x v) (and every v by Rodrigues' formula), and "
-              "R(alpha) R(beta) = R(alpha+beta) in 2-D and 3-D; Spherical_Coordinates without axis is the textbook formula; with an axis every non-zero axis reaches "
+              "maps every v perpendicular to the axis to cos(alpha) v + sin(alpha) (n x v) (and every v by Rodrigues' formula), "
+              "R(alpha) R(beta) = R(alpha+beta) in 2-D and 3-D, and (R v) R = v with the library's own vector-times-matrix product; Spherical_Coordinates without axis is the textbook formula; with an axis every non-zero axis reaches "
               "exactly one of three branches whose formula is well defined (ev = +z, ev = -z, or aux <> 0 in the general branch that divides by aux), and for all r, theta, phi "
               "the result is r (sin(theta) cos(phi) e1 + sin(theta) sin(phi) e2 + cos(theta) ev) in an explicit right-handed orthonormal frame (e1, e2, ev) that depends on the axis only; "
-              "hence norm r, component r cos(theta) along the axis, and (ev x u) . du/dphi = r^2 sin^2(theta) >= 0 (derivative taken of the model's own result as a function of phi). "
-              "Not theorems: everything about rounding (orthogonality etc. 'to rounding', the behaviour near the poles in floating point, underflow of ev0^2+ev1^2). "
-              "The float behaviour is covered by the differential run of the extracted model against the library (bit-identical) and by "
-              "the S4 predicates on the library's output (orthogonality, determinant, fixed axis, Rodrigues image, composition, plain formula, norm, polar cosine and sine, "
-              "finite-difference handedness (ev x u(phi)).(u(phi+h)-u(phi)) = r^2 sin^2(theta) sin(h)) with a-priori rounding slack 64 eps.")
-LEVEL_NOTE = ("Coq 8.16.1 kernel, theorems over R with the standard library's sin, cos, sqrt and Coquelicot's is_derive (axioms of the real numbers as printed by Print Assumptions); "
+              "hence norm r, component r cos(theta) along the axis, (ev x u) . du/dphi = r^2 sin^2(theta) >= 0 (derivative taken of the model's own result as a function of phi), "
+              "R(alpha) u(phi) = u(phi + alpha) (the rotation and the azimuth turn the same way about the same axis), and the library's own Angle(u, axis) = Angle(axis, u) = theta for r > 0, theta in [0, pi]. "
+              "Argument objects with a past: in the model an object is its component list; a history is a list of steps (writes, +=, -=, assignments of sums, scalings, Resize, Assign, Normalize, "
+              "Cross, copies, and questions: Norm, Dot, Angle, reads, earlier Rotation_Matrix / Spherical_Coordinates calls with the object); theorems: questions leave the object alone, "
+              "+= / -= give the value of the sum / difference, two objects of equal value give equal results whatever their histories, and a rotation / spherical coordinates about an object "
+              "with any history are proper / of norm r at polar angle theta with respect to the value the object has at the call. "
+              "Not theorems: everything about rounding (orthogonality etc. 'to rounding', the behaviour near the poles in floating point, underflow of ev0^2+ev1^2, acos of a quotient an ulp above 1), "
+              "and that the C++ objects carry no state beyond their components (the model has none by construction). "
+              "Both are covered by the differential run of the extracted model against the library (bit-identical) - every Vector argument also as ONE live object taken through a generated "
+              "history (questions before the last change of value, compound assignments, copies, resizes, earlier calls with the same object), every multiplied matrix through a value-preserving history - and by "
+              "the S4 predicates on the library's output (orthogonality, determinant, fixed axis, Rodrigues image, composition, (R v) R = v, R(alpha) u(phi) = u(phi+alpha), plain formula, norm (also by the library's Norm()), "
+              "polar cosine and sine, the library's Angle, finite-difference handedness (ev x u(phi)).(u(phi+h)-u(phi)) = r^2 sin^2(theta) sin(h)) with a-priori rounding slack 64 eps, "
+              "evaluated against the value the reference semantics of the history gives the object.")
+LEVEL_NOTE = ("Coq 8.16.1 kernel, theorems over R with the standard library's sin, cos, sqrt, acos and Coquelicot's is_derive (axioms of the real numbers as printed by Print Assumptions); "
               "hand-written model tied by differential correspondence (extraction with ExtrOcamlBasic only); std::hypot is a function argument of the model, instantiated with "
-              "sqrt(x*x+y*y) in the theorems and with libm's hypot in the float instance; libm sin/cos/sqrt/hypot are the same functions on both sides")
+              "sqrt(x*x+y*y) in the theorems and with libm's hypot in the float instance; libm sin/cos/sqrt/hypot/acos are the same functions on both sides; "
+              "the class invariant dimension = components.size() of Vector / Matrix (theorems of C04) lets an object be modelled by its component list")
 TOL = (1e-13, 1e-300)
-TRUSTED = ["libm sin, cos, hypot and IEEE sqrt are modelled by the real functions of the same name / by sqrt(x^2+y^2) (the S4 predicates assume each is accurate to about one ulp)"]
+TRUSTED = ["libm sin, cos, acos, hypot and IEEE sqrt are modelled by the real functions of the same name / by sqrt(x^2+y^2) (the S4 predicates assume each is accurate to about one ulp)"]
 ASSUMPTIONS = ["Rotation_Matrix with a zero axis returns NaN entries and Spherical_Coordinates with a zero axis falls back to the plain formula: "
                "outside the property's quantifier (non-zero axes); both are still compared with the model"]
 
@@ -38,6 +47,8 @@ def _axes(rng, n_random):
     for d in ([1, 0, 0], [-1, 0, 0], [0, 1, 0], [0, -1, 0], [0, 0, 1], [0, 0, -1]):
         for L in lens + [10 ** rng.uniform(-6, 6)]:
             out.append(([L * x for x in d], "axis-coordinate"))
+    for L in (1.0, -1.0, 10 ** rng.uniform(-6, 5.7), -10 ** rng.uniform(-6, 5.7)):
+        out.append(([L, L, L], "axis-diagonal"))
     for delta in (1e-12, 1e-9, 1e-7, 1e-5, 1e-3, 1e-15, 1e-17, 1e-160, 1e-170, 3e-8, 2e-6):
         for sgn in (1.0, -1.0):
             for _ in range(3):
@@ -294,6 +305,7 @@ def _decode(line):
             d.update(r=cur.num(), theta=cur.num(), phi=cur.num(), alpha=cur.num()); d["axis"] = vec3()
             d["usteps"] = tuple(_rd_vstep(cur) for _ in range(cur.int())) if hist else ()
             d["nsteps"] += len(d["usteps"])
+        elif op == "rotaxis": d.update(alpha=cur.num()); d["axis"] = vec3(); d["mh"] = mh()
         elif op == "rotsph": d.update(alpha=cur.num(), r=cur.num(), theta=cur.num(), phi=cur.num()); d["axis"] = vec3(); d["mh"] = mh()
         elif op in ("angle", "cross"): d["a"] = vec(); d["b"] = vec()
     except _Exit:
@@ -358,17 +370,24 @@ def _arrive(rng, v, goal):
 
 
 def _steer(rng, v, target):
-    """the last value-changing steps of a history: whatever the object was, it ends (within rounding) at target"""
+    """the last value-changing steps of a history: whatever the object was, it ends (within rounding) at target.  Questions are
+    slipped in between the steps, so that each kind of step is, in some case, the only change after the object was last asked"""
     steps = []
 
     def run(sts):
         nonlocal v
-        for st in sts: v = _vstep(v, st)
-        steps.extend(sts)
+        for st in sts:
+            v = _vstep(v, st); steps.append(st)
+            if rng.random() < 0.35:
+                q = _question(rng, v); v = _vstep(v, q); steps.append(q)
     if len(v) != 3 or not all(math.isfinite(x) and abs(x) < 1e150 for x in v):
         run([rng.choice([("rs", 3), ("as", 3, rng.gauss(0, 1)), ("df",)])])
         if not all(math.isfinite(x) and abs(x) < 1e150 for x in v): run([("as", 3, rng.gauss(0, 1))])
-    how = rng.choice(["direct", "direct", "direct", "direct", "scale", "divide", "double", "resize"])
+    L = math.sqrt(_dot(target, target))
+    ways = ["direct", "direct", "direct", "direct", "scale", "divide", "double", "resize", "cross"]
+    if abs(L - 1.0) < 1e-12: ways += ["normalize", "normalize"]
+    if target[0] == target[1] == target[2]: ways += ["assign"] * 4
+    how = rng.choice(ways)
     if how == "direct": run(_arrive(rng, v, target))
     elif how == "scale":
         s = rng.choice([2.0, 0.5, -1.0, 3.0, 1e3, 1e-3, rng.uniform(0.1, 10.0)])
@@ -378,10 +397,19 @@ def _steer(rng, v, target):
         run(_arrive(rng, v, [t * s for t in target])); run([("dv", s)])
     elif how == "double":
         run(_arrive(rng, v, [t / 2 for t in target])); run([("sa",)])
-    else:
-        run([("rs", 5), ("st", 3, rng.gauss(0, 1)), ("st", 4, rng.gauss(0, 1))])
-        w = [g - x for g, x in zip(target, v)] + [rng.gauss(0, 1), rng.gauss(0, 1)]
+    elif how == "resize":
+        run([("rs", 5), ("st", 3, rng.gauss(0, 1) * L), ("st", 4, rng.gauss(0, 1) * L)])
+        w = [g - x for g, x in zip(target, v)] + [rng.gauss(0, 1) * L, rng.gauss(0, 1) * L]
         run([(rng.choice(["pa", "pl"]), w), ("rs", 3)])
+    elif how == "cross":
+        # p x ((t x p) / p.p) = t for p perpendicular to t
+        pp = _perp(rng, [x / L for x in target]); q = _cross(target, pp); d = _dot(pp, pp)
+        run(_arrive(rng, v, pp)); run([("cx", [x / d for x in q])])
+    elif how == "normalize":
+        s = 10 ** rng.uniform(-3, 3)
+        run(_arrive(rng, v, [t * s for t in target])); run([(rng.choice(["nz", "nd"]),)])
+    else:
+        run([("as", 3, target[0])])
     return steps, v
 
 
@@ -475,6 +503,8 @@ def _hist_cases(rng, axis, tag, kinds):
             v = _perp(rng, n) if rng.random() < 0.7 else [rng.gauss(0, 1) for _ in range(3)]
             vs, vh, vf = _vhist(rng, v, accept=lambda w: len(w) == 3 and all(math.isfinite(x) for x in w), three=True)
             cs.append(Case(f"hist {kind} {hx(_angle(rng))} {_v3(st)} {_fmt_vhist(hs)} {_v3(vs)} {_fmt_vhist(vh)} {_fmt_mhist(_mhist(rng))}", tags))
+        elif kind == "rotaxis":
+            cs.append(Case(f"hist rotaxis {hx(_angle(rng))} {_v3(st)} {_fmt_vhist(hs)} {_fmt_mhist(_mhist(rng))}", tags))
         elif kind == "rotsph":
             r = 10 ** rng.uniform(-3, 3)
             cs.append(Case(f"hist rotsph {hx(_angle(rng))} {hx(r)} {hx(_theta(rng))} {hx(_phi(rng))} {_v3(st)} {_fmt_vhist(hs)} {_fmt_mhist(_mhist(rng))}", tags))
@@ -544,6 +574,7 @@ def generate(rng, tier):
         nrm = math.sqrt(_dot(axis, axis)); n = [x / nrm for x in axis]
         v = _perp(rng, n) if rng.random() < 0.8 else [rng.gauss(0, 1) for _ in range(3)]
         cs.append(Case(f"{rng.choice(['rotapply', 'rotback'])} {hx(_angle(rng))} " + _v3(axis) + " " + _v3(v), ("rotapply", tag)))
+        if rng.random() < 0.5: cs.append(Case(f"rotaxis {hx(_angle(rng))} " + _v3(axis), ("rotaxis", tag)))
         r = 10 ** rng.uniform(-3, 3)
         cs.append(Case(f"rotsph {hx(_angle(rng))} {hx(r)} {hx(_theta(rng))} {hx(_phi(rng))} " + _v3(axis), ("rotsph", tag)))
     # ---- guards of Rotation_Matrix
@@ -570,8 +601,8 @@ def generate(rng, tier):
     for ax in ([0.0, 0.0, 0.0], [0.0, 0.0], [], [1.0], [1.0, 0.0], [0.0, 1.0], [0.0, 0.0, 2.0, 0.0], [0.0, 0.0, -2.0, 0.0], [1.0, 2.0, 3.0, 4.0]):
         cs.append(Case(f"spha {hx(2.0)} {hx(0.3)} {hx(0.4)} {flist(ax)}", ("spha-guard",)))
     # ---- argument objects with a call history (same axes: coordinate directions, near the poles, every length)
-    rk = ["rot", "rot", "rotcomp", "rotapply", "rotback", "rotsph", "sphrot"]; sk = ["spha", "spha", "sphad", "sphang"]
-    for axis, tag in _axes(rng, 4000 if big else 120):
+    rk = ["rot", "rot", "rotcomp", "rotapply", "rotback", "rotaxis", "rotsph", "sphrot"]; sk = ["spha", "spha", "sphad", "sphang"]
+    for axis, tag in _axes(rng, 4000 if big else 300):
         cs += _hist_cases(rng, axis, tag, [rng.choice(rk), rng.choice(sk)] if not big else [rng.choice(rk), rng.choice(rk), rng.choice(sk), rng.choice(sk)])
     # histories that end in an object the library must refuse (or, for a zero 2-vector, may accept)
     z3 = flist([0.0, 0.0, 1.0])
@@ -627,7 +658,7 @@ def nontrivial(c, io):
     if d["nsteps"] > 0: return True
     if op in ("rot", "rotdef"): return (d["dim"] == 3 and (ax_nt(d["axis"]) or abs(d["alpha"]) > 2 * PI)) or (d["dim"] == 2 and abs(d["alpha"]) > 2 * PI)
     if op == "rotcomp": return ax_nt(d["axis"]) or abs(d["a"]) > 2 * PI or abs(d["b"]) > 2 * PI
-    if op in ("rotapply", "rotback", "rotsph", "sphrot"): return ax_nt(d["axis"]) or abs(d["alpha"]) > 2 * PI
+    if op in ("rotapply", "rotback", "rotaxis", "rotsph", "sphrot"): return ax_nt(d["axis"]) or abs(d["alpha"]) > 2 * PI
     if op in ("spha", "sphad", "sphang"): return ax_nt(d["axis"])
     return False
 
@@ -779,6 +810,15 @@ def predicates(c, io):
             back = o[5:8]
             if not all(abs(back[i] - vec[i]) <= (256 * EPS + 4 * ex) * sc for i in range(3)):
                 out.append(("rot3:transpose-is-inverse", f"(R v) R = {back!r} instead of v = {vec!r} (axis {axis!r})"))
+    elif op == "rotaxis":
+        alpha, axis = d["alpha"], d["axis"]
+        if exited: return [("rotaxis:exit", "terminated the process on a valid request")]
+        ex = _matrix_history_slack(alpha, axis, d["mh"])
+        if ex is None or not any(axis): return out
+        # "leaves the axis fixed", for the axis object itself (any length): |E_ij| <= 64 eps in R, so |(E a)_i| <= 64 sqrt(3) eps |a| (+ 3 eps |a| of the product, + history of R)
+        w = o[1:4]; sc = math.sqrt(_dot(axis, axis))
+        if not all(abs(w[i] - axis[i]) <= (128 * EPS + 2 * ex) * sc for i in range(3)):
+            out.append(("rot3:axis-fixed", f"R a = {w!r} for the axis a = {axis!r} itself"))
     elif op == "rotsph":
         alpha, r, th, ph, axis = d["alpha"], d["r"], d["theta"], d["phi"], d["axis"]
         if exited: return [("rotsph:exit", "terminated the process on a valid request")]
